@@ -100,9 +100,15 @@ func zzChildStep(private bool, k *ExtendedKey, i uint32) {
 	vReach("derived")
 }
 
+var zzLongSeeds = []int{127, 128, 129, 255, 256, 257, 272, 288, 320, 511, 512, 528, 576, 65552, 65600}
+
 // ZZ_C04_master: seed length bounds and master key layout.
 func ZZ_C04_master() {
-	n := vCase("seedlen", 0, vParam("maxseed", 66))
+	n := vCase("seedlen", 0, vParam("maxseed", 66)+len(zzLongSeeds))
+	if n > vParam("maxseed", 66) {
+		// long seeds around the powers of two where a narrowed length would wrap back into range
+		n = zzLongSeeds[n-vParam("maxseed", 66)-1]
+	}
 	seed := vBytes("seed", n)
 	net := &chaincfg.MainNetParams
 	k, err := NewMaster(seed, net)
